@@ -3059,9 +3059,13 @@ PPL::Grid::wrap_assign(const Variables_Set& vars,
           PPL_ASSERT(o == OVERFLOW_WRAPS);
           // The value v_n for `x' is wrapped modulo the 'wrap_frequency'.
           v_n %= wrap_frequency;
-          // `v_n' is the value closest to 0 and may be negative.
-          if (r == UNSIGNED && v_n < 0) {
+          // `v_n' has the sign of the original value and an absolute
+          // value smaller than the `wrap_frequency': bring it into range.
+          if (v_n < min_value) {
             v_n += wrap_frequency;
+          }
+          else if (v_n > max_value) {
+            v_n -= wrap_frequency;
           }
           unconstrain(x);
           add_constraint(x == v_n);
